@@ -23,6 +23,7 @@ def _simp(e):
 
 _IV = {}
 _CONC = {}
+SUBST = []  # (variable, value) pairs pinned on the current path; reset by the driver before every path
 _MEMO = {}  # (op, ast ids...) -> result; z3 ASTs are hash-consed and variable names repeat on every path
 
 
@@ -116,7 +117,22 @@ class ArrStr(AnySymbolicStr, CrossHairValue):
             return r
 
     def concrete(self):
-        """python str if fully concrete else None"""
+        """python str if fully concrete (possibly after substituting values pinned on this path) else None"""
+        r = self._concrete_now()
+        if r is None and SUBST and type(self) is ArrStr:
+            ln = _simp(z3.substitute(self.ln, *SUBST))
+            n = _conc_int(ln)
+            if n is None:
+                return None
+            chars = [_simp(z3.substitute(c, *SUBST)) for c in self.chars[:n]]
+            if any(_conc_int(c) is None for c in chars):
+                return None
+            self.ln, self.chars, self.cap = ln, chars, len(chars)
+            self.__dict__.pop("_key", None)
+            return self._concrete_now()
+        return r
+
+    def _concrete_now(self):
         n = _conc_int(self.ln)
         if n is None:
             return None
@@ -589,6 +605,8 @@ def _out(a):
 
 def _arr(x):
     if isinstance(x, ArrStr):
+        if SUBST:
+            x.concrete()
         return x
     if isinstance(x, str):
         return ArrStr.from_concrete(x)
@@ -650,11 +668,15 @@ def pin(x, where=""):
             n = mdl.eval(x.ln, model_completion=True)
             if not z3.is_int_value(x.ln):
                 space.add(x.ln == n)
+                if z3.is_const(x.ln):
+                    SUBST.append((x.ln, n))
             out = []
             for c in x.chars[: n.as_long()]:
                 v = mdl.eval(c, model_completion=True)
                 if not z3.is_int_value(c):
                     space.add(c == v)
+                    if z3.is_const(c):
+                        SUBST.append((c, v))
                 out.append(v)
             _z.PINNED.append(("str", where))
             x.ln = n
@@ -708,7 +730,10 @@ def kind_constraints(ln, cs, kind, sp, name, u):
         for k in range(n):
             out.append(z3.Implies(z3.And(k < colon), _in_ranges(cs[k], _SCHEME)))
             out.append(z3.Implies(k == colon, cs[k] == 58))
-            out.append(z3.Implies(z3.And(k > colon, k < ln), z3.And(cs[k] >= 33, cs[k] <= 126)))
+            # IRI characters: printable ASCII without space and without < > " { } | ^ ` \\
+            out.append(z3.Implies(z3.And(k > colon, k < ln), z3.And(cs[k] >= 33, cs[k] <= 126, cs[k] != 60, cs[k] != 62,
+                                                                    cs[k] != 34, cs[k] != 123, cs[k] != 125, cs[k] != 124,
+                                                                    cs[k] != 94, cs[k] != 96, cs[k] != 92)))
     elif kind == "name":  # [A-Za-z][A-Za-z0-9_]*
         if n:
             out.append(z3.Implies(ln > 0, _in_ranges(cs[0], _ALPHA)))
